@@ -11,7 +11,6 @@ pub struct TxnView {
     pub base: Uuid,
     /// working set; index 0 is always None
     pub ws: Seq<Option<Uuid>>,
-    pub committed: bool,
 }
 pub open spec fn ws_wf(ws: Seq<Option<Uuid>>) -> bool { ws.len() >= 1 && ws[0] is None }
 /// trailing blanks (beyond index 0) are not stored ("one greater than the highest used index")
@@ -39,11 +38,14 @@ pub open spec fn is_empty_view(s: TxnView) -> bool {
 pub trait StorageTxn: Send {
     /// ghost view of everything the transaction would commit
     spec fn st(&self) -> TxnView;
+    /// what is durably visible to other transactions: changes only in `commit` ("a transaction is not visible to other
+    /// readers until it is committed"; "transactions are aborted if they are dropped")
+    spec fn stored(&self) -> TxnView;
     /// representation invariant of the implementation
     spec fn inv(&self) -> bool;
     fn get_task(&mut self, uuid: Uuid) -> (r: Result<Option<TaskMap>>)
         requires old(self).inv(),
-        ensures final(self).inv(), final(self).st() == old(self).st(),
+        ensures final(self).inv(), final(self).st() == old(self).st(), final(self).stored() == old(self).stored(),
             match r {
                 Ok(Some(m)) => old(self).st().tasks.dom().contains(uuid) && m@ == old(self).st().tasks[uuid],
                 Ok(None) => !old(self).st().tasks.dom().contains(uuid),
@@ -52,12 +54,12 @@ pub trait StorageTxn: Send {
     ;
     fn get_pending_tasks(&mut self) -> (r: Result<Vec<(Uuid, TaskMap)>>)
         requires old(self).inv(),
-        ensures final(self).inv(), final(self).st() == old(self).st(),
+        ensures final(self).inv(), final(self).st() == old(self).st(), final(self).stored() == old(self).stored(),
             r matches Err(e) ==> storage_err(e),
     ;
     fn create_task(&mut self, uuid: Uuid) -> (r: Result<bool>)
-        requires old(self).inv(), !old(self).st().committed,
-        ensures final(self).inv(),
+        requires old(self).inv(),
+        ensures final(self).inv(), final(self).stored() == old(self).stored(),
             match r {
                 Ok(b) => b == !old(self).st().tasks.dom().contains(uuid)
                     && final(self).st() == (TxnView { tasks: if b { old(self).st().tasks.insert(uuid, Map::empty()) } else { old(self).st().tasks }, ..old(self).st() }),
@@ -65,16 +67,16 @@ pub trait StorageTxn: Send {
             },
     ;
     fn set_task(&mut self, uuid: Uuid, task: TaskMap) -> (r: Result<()>)
-        requires old(self).inv(), !old(self).st().committed,
-        ensures final(self).inv(),
+        requires old(self).inv(),
+        ensures final(self).inv(), final(self).stored() == old(self).stored(),
             match r {
                 Ok(_) => final(self).st() == (TxnView { tasks: old(self).st().tasks.insert(uuid, task@), ..old(self).st() }),
                 Err(e) => storage_err(e) && final(self).st() == old(self).st(),
             },
     ;
     fn delete_task(&mut self, uuid: Uuid) -> (r: Result<bool>)
-        requires old(self).inv(), !old(self).st().committed,
-        ensures final(self).inv(),
+        requires old(self).inv(),
+        ensures final(self).inv(), final(self).stored() == old(self).stored(),
             match r {
                 Ok(b) => b == old(self).st().tasks.dom().contains(uuid)
                     && final(self).st() == (TxnView { tasks: old(self).st().tasks.remove(uuid), ..old(self).st() }),
@@ -83,22 +85,22 @@ pub trait StorageTxn: Send {
     ;
     fn all_tasks(&mut self) -> (r: Result<Vec<(Uuid, TaskMap)>>)
         requires old(self).inv(),
-        ensures final(self).inv(), final(self).st() == old(self).st(),
+        ensures final(self).inv(), final(self).st() == old(self).st(), final(self).stored() == old(self).stored(),
             match r { Ok(v) => tasks_listed(v@, old(self).st().tasks) && (v@.len() == 0) == (old(self).st().tasks.dom() =~= Set::<Uuid>::empty()), Err(e) => storage_err(e) },
     ;
     fn all_task_uuids(&mut self) -> (r: Result<Vec<Uuid>>)
         requires old(self).inv(),
-        ensures final(self).inv(), final(self).st() == old(self).st(),
+        ensures final(self).inv(), final(self).st() == old(self).st(), final(self).stored() == old(self).stored(),
             match r { Ok(v) => uuids_listed(v@, old(self).st().tasks), Err(e) => storage_err(e) },
     ;
     fn base_version(&mut self) -> (r: Result<VersionId>)
         requires old(self).inv(),
-        ensures final(self).inv(), final(self).st() == old(self).st(),
+        ensures final(self).inv(), final(self).st() == old(self).st(), final(self).stored() == old(self).stored(),
             match r { Ok(b) => b == old(self).st().base, Err(e) => storage_err(e) },
     ;
     fn set_base_version(&mut self, version: VersionId) -> (r: Result<()>)
-        requires old(self).inv(), !old(self).st().committed,
-        ensures final(self).inv(),
+        requires old(self).inv(),
+        ensures final(self).inv(), final(self).stored() == old(self).stored(),
             match r {
                 Ok(_) => final(self).st() == (TxnView { base: version, ..old(self).st() }),
                 Err(e) => storage_err(e) && final(self).st() == old(self).st(),
@@ -106,30 +108,30 @@ pub trait StorageTxn: Send {
     ;
     fn get_task_operations(&mut self, uuid: Uuid) -> (r: Result<Vec<Operation>>)
         requires old(self).inv(),
-        ensures final(self).inv(), final(self).st() == old(self).st(),
+        ensures final(self).inv(), final(self).st() == old(self).st(), final(self).stored() == old(self).stored(),
             r matches Err(e) ==> storage_err(e),
     ;
     fn unsynced_operations(&mut self) -> (r: Result<Vec<Operation>>)
         requires old(self).inv(),
-        ensures final(self).inv(), final(self).st() == old(self).st(),
+        ensures final(self).inv(), final(self).st() == old(self).st(), final(self).stored() == old(self).stored(),
             match r { Ok(v) => v@ == old(self).st().unsynced, Err(e) => storage_err(e) },
     ;
     fn num_unsynced_operations(&mut self) -> (r: Result<usize>)
         requires old(self).inv(),
-        ensures final(self).inv(), final(self).st() == old(self).st(),
+        ensures final(self).inv(), final(self).st() == old(self).st(), final(self).stored() == old(self).stored(),
             match r { Ok(n) => n == old(self).st().unsynced.len(), Err(e) => storage_err(e) },
     ;
     fn add_operation(&mut self, op: Operation) -> (r: Result<()>)
-        requires old(self).inv(), !old(self).st().committed,
-        ensures final(self).inv(),
+        requires old(self).inv(),
+        ensures final(self).inv(), final(self).stored() == old(self).stored(),
             match r {
                 Ok(_) => final(self).st() == (TxnView { unsynced: old(self).st().unsynced.push(op), ..old(self).st() }),
                 Err(e) => storage_err(e) && final(self).st() == old(self).st(),
             },
     ;
     fn remove_operation(&mut self, op: Operation) -> (r: Result<()>)
-        requires old(self).inv(), !old(self).st().committed,
-        ensures final(self).inv(),
+        requires old(self).inv(),
+        ensures final(self).inv(), final(self).stored() == old(self).stored(),
             match r {
                 // "must exactly match the most recent operation, and must not be synced"
                 Ok(_) => old(self).st().unsynced.len() > 0 && old(self).st().unsynced.last() == op
@@ -138,24 +140,23 @@ pub trait StorageTxn: Send {
             },
     ;
     fn sync_complete(&mut self) -> (r: Result<()>)
-        requires old(self).inv(), !old(self).st().committed,
-        ensures final(self).inv(),
+        requires old(self).inv(),
+        ensures final(self).inv(), final(self).stored() == old(self).stored(),
             match r {
                 // all operations are marked as synced; the storage may clean up the synced history
                 Ok(_) => final(self).st().unsynced == Seq::<Operation>::empty() && final(self).st().tasks == old(self).st().tasks
-                    && final(self).st().base == old(self).st().base && final(self).st().ws == old(self).st().ws
-                    && final(self).st().committed == old(self).st().committed,
+                    && final(self).st().base == old(self).st().base && final(self).st().ws == old(self).st().ws,
                 Err(e) => storage_err(e) && final(self).st() == old(self).st(),
             },
     ;
     fn get_working_set(&mut self) -> (r: Result<Vec<Option<Uuid>>>)
         requires old(self).inv(),
-        ensures final(self).inv(), final(self).st() == old(self).st(),
+        ensures final(self).inv(), final(self).st() == old(self).st(), final(self).stored() == old(self).stored(),
             match r { Ok(v) => v@ == old(self).st().ws && ws_wf(v@), Err(e) => storage_err(e) },
     ;
     fn add_to_working_set(&mut self, uuid: Uuid) -> (r: Result<usize>)
-        requires old(self).inv(), !old(self).st().committed,
-        ensures final(self).inv(),
+        requires old(self).inv(),
+        ensures final(self).inv(), final(self).stored() == old(self).stored(),
             match r {
                 // "return its (one-based) index.  This index will be one greater than the highest used index"
                 Ok(i) => i == old(self).st().ws.len()
@@ -164,10 +165,10 @@ pub trait StorageTxn: Send {
             },
     ;
     fn set_working_set_item(&mut self, index: usize, uuid: Option<Uuid>) -> (r: Result<()>)
-        requires old(self).inv(), !old(self).st().committed,
+        requires old(self).inv(),
             // "Element 0 is always None"
             index == 0 ==> uuid is None,
-        ensures final(self).inv(),
+        ensures final(self).inv(), final(self).stored() == old(self).stored(),
             match r {
                 // "This cannot add a new item to the working set"; trailing blanks are not stored
                 Ok(_) => index < old(self).st().ws.len()
@@ -176,8 +177,8 @@ pub trait StorageTxn: Send {
             },
     ;
     fn clear_working_set(&mut self) -> (r: Result<()>)
-        requires old(self).inv(), !old(self).st().committed,
-        ensures final(self).inv(),
+        requires old(self).inv(),
+        ensures final(self).inv(), final(self).stored() == old(self).stored(),
             match r {
                 Ok(_) => final(self).st() == (TxnView { ws: seq![None::<Uuid>], ..old(self).st() }),
                 Err(e) => storage_err(e) && final(self).st() == old(self).st(),
@@ -185,7 +186,7 @@ pub trait StorageTxn: Send {
     ;
     fn is_empty(&mut self) -> (r: Result<bool>)
         requires old(self).inv(),
-        ensures final(self).inv(), final(self).st() == old(self).st(),
+        ensures final(self).inv(), final(self).st() == old(self).st(), final(self).stored() == old(self).stored(),
             match r { Ok(b) => b == is_empty_view(old(self).st()), Err(e) => storage_err(e) },
     {
         let mut empty = true;
@@ -196,11 +197,12 @@ pub trait StorageTxn: Send {
         Ok(empty)
     }
     fn commit(&mut self) -> (r: Result<()>)
-        requires old(self).inv(), !old(self).st().committed,
-        ensures final(self).inv(),
+        requires old(self).inv(),
+        ensures final(self).inv(), final(self).st() == old(self).st(),
             match r {
-                Ok(_) => final(self).st() == (TxnView { committed: true, ..old(self).st() }),
-                Err(e) => storage_err(e) && final(self).st() == old(self).st(),
+                // everything done in the transaction becomes visible at once
+                Ok(_) => final(self).stored() == old(self).st(),
+                Err(e) => storage_err(e) && final(self).stored() == old(self).stored(),
             },
     ;
 }
